@@ -281,6 +281,7 @@ PROPS["C06"] = {
     "assumptions": COMMON_ASSUMPTIONS + ["keys are non-empty and values non-nil (a nil value means 'missing key' to the library)"],
     "legs": [
         {"test": "TestC06Seeds", "kind": "enum", "quick": {"shards": 1}, "thorough": {"shards": 1}},
+        {"test": "TestC06Arity", "kind": "enum", "quick": {"shards": 1}, "thorough": {"shards": 1}},
         {"test": "TestC06Long", "kind": "enum", "quick": {"shards": 2}, "thorough": {"shards": 4}},
         {"test": "TestC06Dynamic", "kind": "enum", "quick": {"shards": 4}, "thorough": {"shards": 8}},
         {"test": "TestC06Chains", "kind": "enum", "quick": {"shards": 1}, "thorough": {"shards": 1}},
